@@ -119,6 +119,48 @@ n('gvar-stdout-after-stderr', 'cache/disk/disk.go', [L("""	if result.StdoutDiges
 """)])
 n('last-chunk-test-respelled', 'cache/disk/casblob/casblob.go', [L('	if chunkNum == int64(len(h.chunkOffsets)-2) {\n		// Last chunk in the file.', '	if chunkNum+2 == int64(len(h.chunkOffsets)) {\n		// Last chunk in the file.')])
 
+n('get-late-reserve-extracted', 'cache/disk/disk.go', [L("""		c.mu.Lock()
+		err = c.lru.Reserve(foundSize)
+		c.mu.Unlock()
+		if err != nil {
+			return nil, -1, err
+		}
+		size = foundSize""", """		err = c.reserveLate(foundSize)
+		if err != nil {
+			return nil, -1, err
+		}
+		size = foundSize"""), L("""func isSizeMismatch(requestedSize int64, foundSize int64) bool {""", """func (c *diskCache) reserveLate(n int64) error {
+	c.mu.Lock()
+	defer c.mu.Unlock()
+	return c.lru.Reserve(n)
+}
+
+func isSizeMismatch(requestedSize int64, foundSize int64) bool {""")])
+n('put-reserve-extracted', 'cache/disk/disk.go', [L("""	if size > 0 {
+		c.mu.Lock()
+		err := c.lru.Reserve(size)
+		if err != nil {
+			c.mu.Unlock()
+			return err
+		}
+		c.mu.Unlock()
+		unreserve = true
+	}
+""", """	if size > 0 {
+		err := c.reserveLate(size)
+		if err != nil {
+			return err
+		}
+		unreserve = true
+	}
+"""), L("""func isSizeMismatch(requestedSize int64, foundSize int64) bool {""", """func (c *diskCache) reserveLate(n int64) error {
+	c.mu.Lock()
+	defer c.mu.Unlock()
+	return c.lru.Reserve(n)
+}
+
+func isSizeMismatch(requestedSize int64, foundSize int64) bool {""")])
+
 
 def run(name, path, subs):
     tmp = tempfile.mkdtemp(prefix='neutral-')
